@@ -3,5 +3,5 @@ SPECIFICATION Spec
 CONSTANTS MaxN = 4
           Helpers = {"unique", "shared", "array", "jarray", "jcreate"}
           Bug = "none"
-INVARIANTS NoDestroyOfUnconstructed ConstructedAtMostOnce EachConstructedDestroyedOnce MemoryReturnedSameShape ExceptionPropagatesUnchanged AllocatorUsableAfter ConstructedOnceOnSuccess GuardNeverLeftArmed
+INVARIANTS JointMemoryReturned NoDestroyOfUnconstructed ConstructedAtMostOnce EachConstructedDestroyedOnce MemoryReturnedSameShape ExceptionPropagatesUnchanged AllocatorUsableAfter ConstructedOnceOnSuccess GuardNeverLeftArmed
 CHECK_DEADLOCK FALSE
